@@ -133,16 +133,40 @@ def _has_return_list(stmts):
     return any(_has(s, ast.Return) for s in stmts)
 
 
+def _kwargs_display(h, call, params):
+    """the dict a '**name' parameter of h receives at this call: explicit keywords that match no named parameter and '**X' parts"""
+    keys, values = [], []
+    for k in call.keywords:
+        if k.arg is None:
+            keys.append(None)
+            values.append(k.value)
+        elif k.arg not in params:
+            keys.append(ast.Constant(value=k.arg))
+            values.append(k.value)
+    return ast.copy_location(ast.Dict(keys=keys, values=values), call)
+
+
 def _bind_params(h, call, prefix):
     """[Assign renamed_param = arg ...] or NotInlinable."""
-    if call.keywords and any(k.arg is None for k in call.keywords):
-        raise NotInlinable("**kwargs")
-    if any(isinstance(a, ast.Starred) for a in call.args):
-        raise NotInlinable("*args")
     a = h.args
-    if a.vararg or a.kwarg or a.posonlyargs:
+    if call.keywords and any(k.arg is None for k in call.keywords) and not a.kwarg:
+        raise NotInlinable("**kwargs")
+    if any(isinstance(a_, ast.Starred) for a_ in call.args):
+        raise NotInlinable("*args")
+    if a.vararg or a.posonlyargs or a.kwonlyargs:
         raise NotInlinable("signature")
     params = [x.arg for x in a.args]
+    if a.kwarg:
+        kw = _kwargs_display(h, call, params)
+        call = ast.copy_location(ast.Call(func=call.func, args=call.args, keywords=[k for k in call.keywords if k.arg is not None and k.arg in params]), call)
+        rest = _bind_params_named(h, call, prefix, params)
+        rest.append(ast.copy_location(ast.Assign(targets=[ast.Name(id=prefix + a.kwarg.arg, ctx=ast.Store())], value=kw), call))
+        return rest
+    return _bind_params_named(h, call, prefix, params)
+
+
+def _bind_params_named(h, call, prefix, params):
+    a = h.args
     defaults = dict(zip(params[len(params) - len(a.defaults):], a.defaults))
     bound = {}
     args = list(call.args)
@@ -386,6 +410,49 @@ def _pure_arg(e):
         isinstance(e, ast.Subscript) and _pure_arg(e.value) and _pure_arg(e.slice)
 
 
+class _FlattenDictUnpack(ast.NodeTransformer):
+    """{a: 1, **{b: 2, **c}}  ->  {a: 1, b: 2, **c}"""
+
+    def visit_Dict(self, d):
+        self.generic_visit(d)
+        keys, values = [], []
+        for k, v in zip(d.keys, d.values):
+            if k is None and isinstance(v, ast.Dict):
+                keys.extend(v.keys)
+                values.extend(v.values)
+            else:
+                keys.append(k)
+                values.append(v)
+        d.keys, d.values = keys, values
+        return d
+
+
+class _DisplayOfDisplay(ast.NodeTransformer):
+    """list((a, b))  ->  [a, b];  tuple([a, b]) -> (a, b);  [*(a, b)] -> [a, b]"""
+
+    def visit_Call(self, c):
+        self.generic_visit(c)
+        if isinstance(c.func, ast.Name) and c.func.id in ("list", "tuple") and len(c.args) == 1 and not c.keywords and isinstance(c.args[0], (ast.Tuple, ast.List)) \
+                and not any(isinstance(e, ast.Starred) for e in c.args[0].elts):
+            cls = ast.List if c.func.id == "list" else ast.Tuple
+            return ast.copy_location(cls(elts=list(c.args[0].elts), ctx=ast.Load()), c)
+        return c
+
+    def _splice(self, node):
+        self.generic_visit(node)
+        elts = []
+        for e in node.elts:
+            if isinstance(e, ast.Starred) and isinstance(e.value, (ast.Tuple, ast.List)) and not any(isinstance(x, ast.Starred) for x in e.value.elts):
+                elts.extend(e.value.elts)
+            else:
+                elts.append(e)
+        node.elts = elts
+        return node
+
+    visit_List = _splice
+    visit_Tuple = _splice
+
+
 class _ExprInline(ast.NodeTransformer):
     """f(a, b) -> <returned expression of f with parameters replaced>, for helpers that are one return expression."""
 
@@ -400,12 +467,23 @@ class _ExprInline(ast.NodeTransformer):
         if h is None or h is self.caller:
             return c
         expr = _single_expr_helper(h)
-        if expr is None or c.keywords and any(k.arg is None for k in c.keywords) or any(isinstance(a, ast.Starred) for a in c.args):
-            return c
         a = h.args
-        if a.vararg or a.kwarg or a.posonlyargs or a.kwonlyargs:
+        if expr is None or (c.keywords and any(k.arg is None for k in c.keywords) and not a.kwarg) or any(isinstance(a_, ast.Starred) for a_ in c.args):
+            return c
+        if a.posonlyargs or a.kwonlyargs:
             return c
         params = [x.arg for x in a.args]
+        star_display = None
+        if a.vararg:
+            n_pos = len(params) - (1 if isinstance(c.func, ast.Attribute) and params[:1] == ["self"] and not h.decorator_list else 0)
+            if any(k.arg in params for k in c.keywords if k.arg) or len(c.args) < n_pos:
+                return c
+            star_display = ast.copy_location(ast.Tuple(elts=list(c.args[n_pos:]), ctx=ast.Load()), c)
+            c = ast.copy_location(ast.Call(func=c.func, args=list(c.args[:n_pos]), keywords=c.keywords), c)
+        kw_display = None
+        if a.kwarg:
+            kw_display = _kwargs_display(h, c, params)
+            c = ast.copy_location(ast.Call(func=c.func, args=c.args, keywords=[k for k in c.keywords if k.arg is not None and k.arg in params]), c)
         args = list(c.args)
         if isinstance(c.func, ast.Attribute) and params[:1] == ["self"] and not h.decorator_list:
             args = [_clone(c.func.value)] + args
@@ -419,6 +497,10 @@ class _ExprInline(ast.NodeTransformer):
                     bound[p] = _clone(defaults[p])
                 else:
                     return c
+        if kw_display is not None:
+            bound[a.kwarg.arg] = kw_display
+        if star_display is not None:
+            bound[a.vararg.arg] = star_display
         uses = {}
         for n in ast.walk(expr):
             if isinstance(n, ast.Name) and n.id in bound:
@@ -433,7 +515,8 @@ class _ExprInline(ast.NodeTransformer):
                 if n.id in bound and isinstance(n.ctx, ast.Load):
                     return _clone(bound[n.id])
                 return n
-        new = Sub().visit(_clone(expr))
+        new = _FlattenDictUnpack().visit(Sub().visit(_clone(expr)))
+        new = _DisplayOfDisplay().visit(new)
         self.log.append(h.name)
         new = _ExprInline(self.mod, self.caller, self.log, self.depth - 1).visit(new)
         return ast.copy_location(new, c)
@@ -480,6 +563,8 @@ def _expand(mod, stmts, caller, depth, log):
                     if not hasattr(n, "lineno") or True:
                         # report positions at the call site of the helper's statements' own lines where known
                         pass
+            # helper calls in expression position inside the expanded body get a statement of their own first
+            body = _hoist_nested_helper_calls(mod, body, caller)
             out.extend(_expand(mod, body, caller, depth - 1, log))
         except NotInlinable:
             out.append(s)
@@ -808,6 +893,14 @@ def _module_constants(mod):
             for tn, tv in zip(st.targets[0].elts, st.value.elts):
                 if isinstance(tn, ast.Name) and seen.get(tn.id) == 1 and isinstance(tv, ast.Constant) and isinstance(tv.value, (str, int)) and not isinstance(tv.value, bool):
                     out[tn.id] = tv.value
+    # constants computed from other constants (FIRST = LAST - 1), folded in statement order
+    try:
+        from .modconst import module_constants
+        for name, v in module_constants(mod).items():
+            if name not in out and isinstance(v, (str, int)) and not isinstance(v, bool) and (len(mod.assigns.get(name, [])) == 1 or seen.get(name) == 1):
+                out[name] = v
+    except Exception:
+        pass
     return out
 
 
@@ -1140,6 +1233,8 @@ def _propagate_single_use(stmts, fn_loads, fn_stores):
                 header = ("test", nxt.test)
             elif isinstance(nxt, ast.Return) and nxt.value is not None:
                 header = ("value", nxt.value)
+            elif isinstance(nxt, ast.For) and isinstance(nxt.iter, ast.Name) and isinstance(s.value, ast.IfExp):
+                header = ("iter", nxt.iter)      # a source chosen by a condition, then iterated
             elif isinstance(nxt, ast.Assign) and not any(isinstance(n, ast.Name) and n.id == x for t in nxt.targets for n in ast.walk(t)):
                 header = ("value", nxt.value)
             if header is not None and any(isinstance(c_, ast.Call) and isinstance(c_.func, ast.Name) and c_.func.id == x for c_ in ast.walk(header[1])):
@@ -1206,6 +1301,118 @@ def _nest_guard_continue(stmts, in_loop=False):
             return out
         out.append(s)
     return out
+
+
+def _loop_over_conditional_source(stmts):
+    """for v in (A if C else []): BODY   ->   if C: for v in A: BODY      (and the mirrored form)"""
+    out = []
+    for s in stmts:
+        for fld in ("body", "orelse", "finalbody"):
+            if isinstance(getattr(s, fld, None), list) and not isinstance(s, (ast.FunctionDef, ast.ClassDef)):
+                setattr(s, fld, _loop_over_conditional_source(getattr(s, fld)))
+        for hnd in getattr(s, "handlers", []) or []:
+            hnd.body = _loop_over_conditional_source(hnd.body)
+        if isinstance(s, ast.For) and isinstance(s.iter, ast.IfExp) and not s.orelse:
+            def empty(e):
+                return isinstance(e, (ast.List, ast.Tuple)) and not e.elts or isinstance(e, ast.Constant) and e.value in ("", ()) \
+                    or isinstance(e, ast.Call) and norm_(e) in ("list()", "tuple()", "set()", "iter(())")
+            it = s.iter
+            if empty(it.orelse) and not empty(it.body):
+                s.iter = it.body
+                out.append(ast.copy_location(ast.If(test=it.test, body=[s], orelse=[]), s))
+                continue
+            if empty(it.body) and not empty(it.orelse):
+                s.iter = it.orelse
+                t = it.test
+                neg = t.operand if isinstance(t, ast.UnaryOp) and isinstance(t.op, ast.Not) else ast.UnaryOp(op=ast.Not(), operand=t)
+                out.append(ast.copy_location(ast.If(test=neg, body=[s], orelse=[]), s))
+                continue
+        out.append(s)
+    return out
+
+
+def _sort_then_loop(stmts):
+    """X.sort(key=K, reverse=R); for v in X: BODY   ->   for v in sorted(X, key=K, reverse=R): BODY
+    when X is a local list that is not used between the two statements, in BODY, or afterwards."""
+    out = list(stmts)
+    for s in out:
+        for fld in ("body", "orelse", "finalbody"):
+            if isinstance(getattr(s, fld, None), list) and not isinstance(s, (ast.FunctionDef, ast.ClassDef)):
+                setattr(s, fld, _sort_then_loop(getattr(s, fld)))
+        for hnd in getattr(s, "handlers", []) or []:
+            hnd.body = _sort_then_loop(hnd.body)
+    i = 0
+    while i < len(out):
+        s = out[i]
+        c = s.value if isinstance(s, ast.Expr) else None
+        if isinstance(c, ast.Call) and isinstance(c.func, ast.Attribute) and c.func.attr == "sort" and isinstance(c.func.value, ast.Name) and not c.args:
+            x = c.func.value.id
+            for j in range(i + 1, len(out)):
+                t = out[j]
+                uses = [n for n in ast.walk(t) if isinstance(n, ast.Name) and n.id == x]
+                if isinstance(t, ast.For) and isinstance(t.iter, ast.Name) and t.iter.id == x and len(uses) == 1:
+                    later = [n for k in range(j + 1, len(out)) for n in ast.walk(out[k]) if isinstance(n, ast.Name) and n.id == x]
+                    if not later:
+                        t.iter = ast.copy_location(ast.Call(func=ast.Name(id="sorted", ctx=ast.Load()), args=[ast.Name(id=x, ctx=ast.Load())],
+                                                            keywords=[_clone(k) for k in c.keywords]), t.iter)
+                        del out[i]
+                        i -= 1
+                    break
+                if uses:
+                    break
+        i += 1
+    return out
+
+
+def _nest_guard_return(fn):
+    """In a function that returns no value:   if C: S; return   REST      ->      if C: S  else: REST
+    (a guard clause and the nested form are the same paths; the rules see one shape).  Only at the top level of the
+    function body and inside if-arms reached that way, never inside loops, try or with."""
+    rets = [r for r in ast.walk(fn) if isinstance(r, ast.Return) and _owner(r, fn)]
+    if not rets or any(not (r.value is None or (isinstance(r.value, ast.Constant) and r.value.value is None)) for r in rets):
+        return fn
+    if any(isinstance(x, (ast.Yield, ast.YieldFrom)) for x in ast.walk(fn)):
+        return fn
+
+    def bare(st):
+        return isinstance(st, ast.Return)
+
+    def nest(stmts):
+        out = []
+        for i, s in enumerate(stmts):
+            if isinstance(s, ast.If):
+                s.body = nest(s.body)
+                s.orelse = nest(s.orelse)
+                if i + 1 < len(stmts) and s.body and bare(s.body[-1]) and not s.orelse:
+                    rest = nest(stmts[i + 1:])
+                    body = s.body[:-1]
+                    if body:
+                        out.append(ast.copy_location(ast.If(test=s.test, body=body, orelse=rest), s))
+                    else:
+                        t = s.test
+                        neg = t.operand if isinstance(t, ast.UnaryOp) and isinstance(t.op, ast.Not) else ast.UnaryOp(op=ast.Not(), operand=t)
+                        out.append(ast.copy_location(ast.If(test=neg, body=rest, orelse=[]), s))
+                    return out
+                if i + 1 < len(stmts) and s.orelse and bare(s.orelse[-1]) and s.body and not bare(s.body[-1]):
+                    rest = nest(stmts[i + 1:])
+                    out.append(ast.copy_location(ast.If(test=s.test, body=s.body + rest, orelse=s.orelse[:-1] or [ast.Pass()]), s))
+                    return out
+            out.append(s)
+        # a bare return as the very last statement of the list falls off the end anyway (only at function level)
+        return out
+    fn.body = nest(fn.body)
+    if len(fn.body) > 1 and bare(fn.body[-1]):
+        fn.body = fn.body[:-1]
+    return fn
+
+
+def _owner(node, fn):
+    p = getattr(node, "parent", None)
+    while p is not None and p is not fn:
+        if isinstance(p, (ast.FunctionDef, ast.AsyncFunctionDef, ast.Lambda)):
+            return False
+        p = getattr(p, "parent", None)
+    return True
 
 
 def _desugar_extend(stmts):
@@ -1428,6 +1635,7 @@ def canonical_function(mod, fn, depth=3):
         new.inlined_helpers = sorted(set(getattr(base, "inlined_helpers", [])) | set(elog))
     before = ast.dump(new)
     new.body = _desugar_comprehension_loops(new.body)
+    new.body = _desugar_union_star(new.body)
     _ld0, _st0 = {}, {}
     for _n in ast.walk(new):
         if isinstance(_n, ast.Name):
@@ -1441,6 +1649,9 @@ def canonical_function(mod, fn, depth=3):
     new.body = _desugar_union_star(new.body)
     new.body = _desugar_extend(new.body)
     new.body = _nest_guard_continue(new.body)
+    new = _nest_guard_return(new)
+    new.body = _sort_then_loop(new.body)
+    new.body = _loop_over_conditional_source(new.body)
     new = _QuantifierNorm().visit(new)
     _ld, _st = {}, {}
     for _n in ast.walk(new):
